@@ -6,6 +6,7 @@ import (
 	"go/token"
 	"go/types"
 	"math/big"
+	"regexp"
 	"sort"
 	"strings"
 
@@ -254,8 +255,16 @@ func (U *Universe) typeKey(t types.Type) string {
 func normTypeKey(k string) string {
 	k = strings.ReplaceAll(k, "interface {}", "any")
 	k = strings.ReplaceAll(k, "interface{}", "any")
+	// byte and rune are aliases: identical types must get identical tags
+	k = aliasByte.ReplaceAllString(k, "${1}uint8")
+	k = aliasRune.ReplaceAllString(k, "${1}int32")
 	return k
 }
+
+var (
+	aliasByte = regexp.MustCompile(`(^|[^\w.])byte\b`)
+	aliasRune = regexp.MustCompile(`(^|[^\w.])rune\b`)
+)
 
 func (U *Universe) boxSym(t types.Type) string {
 	U.tagOf(t)
